@@ -123,3 +123,67 @@ package handler
 //@   nopanic
 //@   ensures [runs-next] calls(next.ServeHTTP, w, r) == 1
 //@   ensures [500-on-panic] panicked(ServeHTTP) == (calls(w.WriteHeader, 500) == 1) && calls(WriteHeader) <= 1
+
+// ---------------- BreakerHandler (C01): what a route's breaker is told ----------------
+// A request rejected by the breaker gets 503 and never reaches the next handler; an admitted request reaches it
+// exactly once and reports exactly one outcome to the breaker when it finishes (also when the handler panics):
+// a success iff the status written is below 500 (so 4xx answers never move the breaker towards open).
+//@ func BreakerHandler$1$1
+//@   prop C01, C02
+//@   opaque AddDrop, Errorf, GetRemoteAddr, UserAgent
+//@   may-panic ServeHTTP
+//@   havoc-on ServeHTTP: response.WithCodeResponseWriter.Code
+//@   let rejected = ret(brk.Allow, 1) != nil
+//@   ensures [rejected-503-no-handler] rejected ==> calls(w.WriteHeader, 503) == 1 && calls(next.ServeHTTP) == 0 && calls(Accept) == 0 && calls(Reject) == 0
+//@   ensures [admitted-runs-handler-on-recording-writer] !rejected ==> calls(next.ServeHTTP) == 1 && arg(next.ServeHTTP, 1) == r && unbox(arg(next.ServeHTTP, 0), ptr(response.WithCodeResponseWriter)).Writer == w && calls(w.WriteHeader) == 0
+//@   ensures [one-outcome-after-handler] !rejected ==> calls(Accept) + calls(Reject) == 1 && before(ServeHTTP, Accept) && before(ServeHTTP, Reject)
+//@   ensures [below-500-is-success] !rejected ==> (calls(Accept) == 1) == (local(cw).Code < 500)
+//@   panic-ensures [outcome-recorded-on-panic] calls(Accept) + calls(Reject) == 1
+//@ func BreakerHandler$1$1$1
+//@   prop C01
+//@   inline always
+//@   opaque Sprintf, StatusText
+//@   ensures [below-500-accepts] cw.Code < 500 ==> calls(promise.Accept) == 1 && calls(Reject) == 0
+//@   ensures [from-500-rejects] cw.Code >= 500 ==> calls(promise.Reject) == 1 && calls(Accept) == 0
+// The breaker of a route is named after method and path.
+//@ func BreakerHandler
+//@   prop C01
+//@   opaque Join, WithName, New
+//@   ensures [one-breaker-per-route] calls(breaker.New) == 1 && calls(breaker.WithName, ret(strings.Join)) == 1 && len(arg(strings.Join, 0)) == 2 && arg(strings.Join, 0)[0] == method && arg(strings.Join, 0)[1] == path
+
+// ---------------- SheddingHandler (C09): admission and the report back to the shedder ----------------
+//@ func SheddingHandler$2$1
+//@   prop C09, C02
+//@   opaque AddDrop, Errorf, GetRemoteAddr, UserAgent, IncrTotal, IncrDrop, IncrPass
+//@   may-panic ServeHTTP
+//@   havoc-on ServeHTTP: response.WithCodeResponseWriter.Code
+//@   let rejected = ret(shedder.Allow, 1) != nil
+//@   ensures [rejected-503-no-handler] rejected ==> calls(w.WriteHeader, 503) == 1 && calls(next.ServeHTTP) == 0 && calls(Pass) == 0 && calls(Fail) == 0
+//@   ensures [admitted-reports-exactly-once] !rejected ==> calls(next.ServeHTTP) == 1 && arg(next.ServeHTTP, 1) == r && calls(Pass) + calls(Fail) == 1 && before(ServeHTTP, Pass) && before(ServeHTTP, Fail)
+//@   ensures [503-is-fail-everything-else-pass] !rejected ==> (calls(Fail) == 1) == (local(cw).Code == 503)
+//@   panic-ensures [reported-on-panic] calls(Pass) + calls(Fail) == 1
+//@ func SheddingHandler$2$1$1
+//@   prop C09
+//@   inline always
+//@   opaque IncrPass
+//@   ensures [503-fails] cw.Code == 503 ==> calls(promise.Fail) == 1 && calls(Pass) == 0
+//@   ensures [otherwise-passes] cw.Code != 503 ==> calls(promise.Pass) == 1 && calls(Fail) == 0
+
+// ---------------- TimeoutHandler wiring and the rest of the buffering writer (C02) ----------------
+//@ func TimeoutHandler$1
+//@   prop C02
+//@   ensures [positive-timeout-wraps] duration > 0 ==> typeis(result, ptr(timeoutHandler)) && unbox(result, ptr(timeoutHandler)).handler == next && unbox(result, ptr(timeoutHandler)).dt == duration
+//@   ensures [no-timeout-passes-through] duration <= 0 ==> result == next
+//@ func (*timeoutWriter).Header
+//@   prop C02
+//@   requires tw != nil
+//@   ensures [buffered-headers-not-the-real-ones] result == tw.h && calls(Header) == 0
+//@   modifies nothing
+//@ func (*timeoutWriter).writeHeaderLocked
+//@   prop C02
+//@   inline always
+//@   opaque checkWriteHeaderCode, relevantCaller, Errorf, Base
+//@   requires tw != nil
+//@   ensures [first-status-wins] !old(tw.timedOut) && !old(tw.wroteHeader) ==> tw.wroteHeader && tw.code == code
+//@   ensures [later-or-late-ignored] old(tw.timedOut) || old(tw.wroteHeader) ==> tw.code == old(tw.code) && tw.wroteHeader == old(tw.wroteHeader)
+//@   ensures [never-the-real-writer] calls(tw.w.WriteHeader) == 0
